@@ -319,7 +319,10 @@ ALPHABET = ['R1', 'R2', 'B1', 'B2', 'C1', 'C2', 'X1', 'X2', 'RC', 'RS', 'N1', 'I
 
 
 TARGETED = [['A1', 'C1', 'A1', 'A2'], ['A2', 'C1', 'A1', 'R1', 'I1'], ['B1', 'D', 'R1', 'R2'], ['R1', 'D', 'R1', 'I1', 'R2'], ['C1', 'D', 'R2', 'R1'], ['B1', 'B2', 'D', 'D', 'R2', 'R1'],
-            ['R1', 'D', 'RS', 'R1', 'RC'], ['B1', 'D', 'C1', 'R1'], ['B1', 'F1', 'D', 'R1', 'R2'], ['I1', 'D', 'I1', 'X1', 'R2']]
+            ['R1', 'D', 'RS', 'R1', 'RC'], ['B1', 'D', 'C1', 'R1'], ['B1', 'F1', 'D', 'R1', 'R2'], ['I1', 'D', 'I1', 'X1', 'R2'],
+            # a lookup through the CLASS between the bindings on two instances, then the re-decoration
+            ['B1', 'RC', 'B2', 'D', 'R2', 'R1'], ['RC', 'B1', 'B2', 'D', 'R1', 'R2'], ['B1', 'B2', 'RC', 'D', 'R2', 'R1', 'RC'],
+            ['R1', 'RC', 'B2', 'D', 'D', 'R2']]
 
 
 _PRISTINE = {}
